@@ -39,14 +39,14 @@ BreakEv == Ev("break", 0, 0, 0)
 \* finish: off = bytes searched; len = 1 iff the count is pinned by the property (complete run)
 FinishEv(bytes, pinned) == Ev("finish", 0, bytes, IF pinned THEN 1 ELSE 0)
 
-\* The full result stream of an uninterrupted search without binary detection.
-Expected(inp, cfg) ==
-  LET L == LineTable(inp, cfg)
-      n == Len(L)
+\* The full result stream of an uninterrupted search without binary detection, for an arbitrary
+\* selection: L = line table, sels = set of selected line indices, total = input length,
+\* merge = consecutive selected lines are delivered as ONE match event (multi-line search).
+ExpectedGen(L, sels, cfg, total, merge) ==
+  LET n == Len(L)
       AA == IF cfg.pass THEN 0 ELSE cfg.A
       BB == IF cfg.pass THEN 0 ELSE cfg.B
-      Sel(i) == HasByte(inp, L[i], MB) # cfg.inv
-      sels == {i \in 1..n : Sel(i)}
+      Sel(i) == i \in sels
       first == IF sels = {} THEN 0 ELSE CHOOSE i \in sels : \A j \in sels : i <= j
       nons == {g \in 1..n : g > first /\ ~Sel(g)}
       stopl == IF cfg.stopnm /\ first > 0 /\ nons # {}
@@ -55,14 +55,23 @@ Expected(inp, cfg) ==
       IsAfter(i) == \E j \in 1..(i-1) : Sel(j) /\ i - j <= AA
       IsBefore(i) == \E j \in (i+1)..neff : Sel(j) /\ j - i <= BB
       Deliv(i) == Sel(i) \/ cfg.pass \/ IsAfter(i) \/ IsBefore(i)
-      LineEv(i) == Ev(IF Sel(i) THEN "match" ELSE "ctx", IF cfg.lnum THEN i ELSE 0, L[i].s, L[i].e - L[i].s)
+      \* end (exclusive) of the run of selected lines starting at i
+      RECURSIVE RunEnd(_)
+      RunEnd(i) == IF merge /\ i < neff /\ Sel(i + 1) THEN RunEnd(i + 1) ELSE i
+      LineEv(i, j) == Ev(IF Sel(i) THEN "match" ELSE "ctx", IF cfg.lnum THEN i ELSE 0, L[i].s, L[j].e - L[i].s)
       RECURSIVE Go(_, _, _)
       Go(i, last, acc) ==
         IF i > neff THEN acc
         ELSE IF ~Deliv(i) THEN Go(i+1, last, acc)
         ELSE LET brk == last > 0 /\ last < i - 1 /\ (AA > 0 \/ BB > 0)
-             IN Go(i+1, i, IF brk THEN acc \o <<BreakEv, LineEv(i)>> ELSE Append(acc, LineEv(i)))
-  IN <<BeginEv>> \o Go(1, 0, <<>>) \o << FinishEv(Len(inp), stopl = 0) >>
+                 j == IF Sel(i) THEN RunEnd(i) ELSE i
+             IN Go(j+1, j, IF brk THEN acc \o <<BreakEv, LineEv(i, j)>> ELSE Append(acc, LineEv(i, j)))
+  IN <<BeginEv>> \o Go(1, 0, <<>>) \o << FinishEv(total, stopl = 0) >>
+
+\* line mode: a line is selected iff it contains MB, complemented by inversion
+Expected(inp, cfg) ==
+  LET L == LineTable(inp, cfg) IN
+  ExpectedGen(L, {i \in 1..Len(L) : HasByte(inp, L[i], MB) # cfg.inv}, cfg, Len(inp), FALSE)
 
 \* Two streams agree when they are equal except that an unpinned finish carries no byte count.
 EvEq(a, b) == IF a.k = "finish" /\ b.k = "finish" /\ (a.len = 0 \/ b.len = 0) THEN TRUE ELSE a = b
